@@ -99,6 +99,10 @@ def pick_exec(rng, kind, layout, nslots, big, tone=False, tight=False):
         br = -1
     if tone:
         fs = rng.choice([16000, 24000, 48000]); frq = rng.choice([4, 8, 8, 16, 24]); br = rng.choice([64000, 96000, 128000]) * nslots
+        if kind == "penc":      # MSTrace!ProjToneDomain: >= 96 kb/s per channel, transform layer only (not the speech application)
+            br = rng.choice([96000, 128000, 160000]) * nslots; app = rng.choice([2049, 2051])
+        if nslots > 12:
+            frq = rng.choice([8, 16, 24])          # at most 14 packets are coded for such layouts: keep >= 200 ms
     if big:
         frq = rng.choice([8, 8, 16, 4])
     dur_ms = frq * 2.5
@@ -108,13 +112,17 @@ def pick_exec(rng, kind, layout, nslots, big, tone=False, tight=False):
     loss = 0
     if not tone and rng.random() < 0.3:
         loss = rng.randrange(1, 1 << 12) & ~1
+    if not tone and rng.random() < 0.3:
+        fmt += 10           # loud signal: decoded peaks beyond full scale (soft clipping in the int16 path, saturation)
     nstreams_max = nslots
     maxb = 1400 * nstreams_max + 100
+    if tone:        # inside MSTrace!ToneDomain by construction: the buffer holds twice what the bitrate needs
+        maxb = max(maxb, 2 * nslots * ((br // nslots // 8) * (fs // 400 * frq) // fs) + 100)
     if tight:
         small = 2 * nstreams_max - 1 + (nstreams_max if frq == 40 else 0)
         maxb = small + rng.choice([0, 1, 2, 3, 5, 8, 20, 60, 250, 254, 255, 256, 260])
         vbr = 1
-    elif rng.random() < 0.15:
+    elif not tone and rng.random() < 0.15:
         maxb = rng.choice([60, 120, 253, 254, 255, 256, 257, 300, 600]) * max(1, nstreams_max // 2)
     return xline(kind, fs, app, br, vbr, frq, maxb, nfr, loss, fmt, cx, rng.randrange(1, 1 << 30), layout)
 
@@ -143,21 +151,21 @@ def plan_executions(ctx, rng, enc_ok, dec_ok):
                   2: ([1, 3, 4, 6, 9, 11, 18, 27] if quick else AMBI)}
     for f, counts in fam_counts.items():
         for ch in counts:
-            big = ch > 24
-            X.append(pick_exec(rng, "surr", [f, ch], ch, big, tone=(ch <= 11)))
+            big = ch > (24 if quick else 40)
+            X.append(pick_exec(rng, "surr", [f, ch], ch, big, tone=(ch <= (11 if quick else 40))))
             if ch <= 11:
-                for _ in range(1 if quick else 4):
+                for _ in range(1 if quick else 8):
                     X.append(pick_exec(rng, "surr", [f, ch], ch, False, tone=rng.random() < 0.4, tight=rng.random() < 0.25))
     for ch in ([4, 6, 9, 11, 18] if quick else PROJ):
-        X.append(pick_exec(rng, "penc", [3, ch], ch, ch > 24, tone=(ch <= 18)))
-        if ch <= 11:
-            for _ in range(1 if quick else 3):
+        X.append(pick_exec(rng, "penc", [3, ch], ch, quick and ch > 24, tone=(ch <= 18 or not quick)))
+        if ch <= 11 or not quick:
+            for _ in range(1 if quick else (6 if ch <= 11 else 2)):
                 X.append(pick_exec(rng, "penc", [3, ch], ch, False, tone=rng.random() < 0.5, tight=rng.random() < 0.2))
     # multistream encoder on arbitrary valid layouts (duplicates, mutes, permutations)
     small = [l for l in enc_ok if l[0] <= 8]
     large = [l for l in enc_ok if l[0] > 8]
     rng.shuffle(small)
-    for l in small[: (40 if quick else 400)]:
+    for l in (small[:40] if quick else small + small + small):
         ch, S, C, mp = l
         X.append(pick_exec(rng, "enc", [ch, S, C] + mp, S + C, False, tone=rng.random() < 0.5, tight=rng.random() < 0.15))
     for l in large:
@@ -168,7 +176,7 @@ def plan_executions(ctx, rng, enc_ok, dec_ok):
     dsmall = [l for l in dec_ok if l[1] <= 6]
     dlarge = [l for l in dec_ok if l[1] > 6 and l[1] <= 64]
     rng.shuffle(dsmall)
-    for i, l in enumerate(dsmall[: (60 if quick else 600)]):
+    for i, l in enumerate(dsmall[: (60 if quick else 1500)]):
         ch, S, C, mp = l
         frq = rng.choice([1, 2, 4, 8, 8, 16, 24])
         variant = [0, 2, 1][i % 3] if frq != 24 else [0, 2][i % 2]
@@ -280,7 +288,7 @@ def scan(ctx, path):
                     STAT["min_tone_margin_cdB"] = min([STAT["min_tone_margin_cdB"]] + e["sm"])
             elif k == "pt":
                 STAT["families_run"].add((3, e["ch"]))
-                if tone_domain(e):
+                if proj_tone_domain(e):
                     STAT["proj_in_domain"] += 1
                     STAT["min_proj_margin_cdB"] = min([STAT["min_proj_margin_cdB"]] + [v for row in e["pg"] for v in row])
             elif k == "ls":
@@ -292,7 +300,11 @@ def scan(ctx, path):
 
 def tone_domain(e):
     """MSTrace!ToneDomain, to select the measurements reported in the evidence (calibration figures; no judgement)"""
-    return e["brc"] >= 48000 and e["ms"] >= 200 and e["maxb"] >= 2 * (e["S"] + e["C"]) * ((e["brc"] // 8) * e["fr"] // e["fs"])
+    return e["brc"] >= 64000 and e["ms"] >= 200 and e["maxb"] >= 2 * (e["S"] + e["C"]) * ((e["brc"] // 8) * e["fr"] // e["fs"])
+
+
+def proj_tone_domain(e):
+    return tone_domain(e) and e["brc"] >= 96000 and e["minc"] >= 16 and e["fr"] * 100 >= e["fs"] and e["fr"] * 50 <= e["fs"] * 3
 
 
 def known_match(event):
@@ -358,12 +370,16 @@ def judge(ctx, exe_hk, runs, what, cfg="MSTrace.cfg", drift=False):
 
 
 def summarize(e, ev):
+    def cut(v):
+        return v if not isinstance(v, list) or len(v) <= 12 else v[:12] + ["... %d more" % (len(v) - 12)]
     if e.get("k") == "pk":
-        keep = {q: e.get(q) for q in ("k", "t", "x", "i", "ch", "S", "C", "map", "fs", "fr", "n", "so", "sk", "sp", "sl", "sc", "rm", "rs", "zm")}
+        keep = {q: cut(e.get(q)) for q in ("k", "t", "x", "i", "ch", "S", "C", "map", "fs", "fr", "n", "so", "sk", "sp", "sl", "sc", "rm")}
         if e.get("ch", 0) <= 8:
-            keep["dm"] = e.get("dm"); keep["ds"] = e.get("ds")
-        return json.dumps(keep)[:1300]
-    return ev[:900]
+            keep["zm"] = e.get("zm"); keep["rs"] = e.get("rs"); keep["dm"] = e.get("dm"); keep["ds"] = e.get("ds")
+        return json.dumps(keep)[:1500]
+    if e.get("k") in ("cr", "tn", "pt", "md"):
+        return json.dumps({q: cut(v) for q, v in e.items()})[:1200]
+    return ev[:700]
 
 
 def confirm(ctx, exe, cmd, e):
@@ -432,8 +448,10 @@ def run(ctx):
                        "mapping table); Family() derives them from the speaker order and a pairing rule",
                        "the header bytes logged for each sub-packet reach 4 bytes past the payload offset the library's parser reported (a header the "
                        "specification parses to the same offset has then only read real bytes)",
-                       "the test-tone clauses (which input channel feeds which stream; projection round trip) are asserted for >= 48 kb/s per coded "
-                       "channel and >= 200 ms of signal, with a 6 dB margin between the strongest and the second strongest tone (R2, R3)",
+                       "the test-tone clauses are asserted only well inside 'enough bits for a steady tone' (R2): which input channel feeds which stream "
+                       "at >= 64 kb/s per coded channel; projection round trip at >= 96 kb/s, every stream coded by the transform layer, packets of "
+                       "10-60 ms; both with >= 200 ms of signal, a buffer of twice the bitrate's bytes, and a 6 dB margin between the strongest and "
+                       "the second strongest tone (calibrated: worst observed 35.9 dB / 19.4 dB, R3)",
                        "matrix identity tolerance 1/500 of the diagonal (measured worst deviation is recorded under matrix_deviation_ppm)",
                        "sample rates and the three sample formats are covered by sampling; FEC decoding and DRED are not exercised"]
     if ctx.replay:
@@ -561,7 +579,11 @@ def finish_notes(ctx):
     s["families_run"] = {str(f): sorted(ch for ff, ch in fams if ff == f) for f in sorted(set(f for f, ch in fams))}
     s["distinct_layouts_run"] = len(s.pop("layouts_run"))
     ctx.notes["observed"] = s
-    ctx.notes["thresholds"] = dict(ToneMarginMin_cdB=600, ToneRateMin_bps_per_channel=48000, matrix_TolDiv=500)
+    ctx.notes["thresholds"] = dict(ToneMarginMin_cdB=600, ToneRateMin_bps_per_channel=64000, ProjRateMin_bps_per_channel=96000, matrix_TolDiv=500,
+                                   calibration=("stream-side tones: 941 surround runs (families 0/1/2/255, all rates, 10-120 ms, all applications): worst margin "
+                                                "35.9 dB at >= 64 kb/s per channel (15.5 dB at 48 kb/s); projection outputs: 1100 runs over the ten channel "
+                                                "counts at >= 96 kb/s, transform layer only, 10-60 ms: worst 19.4 dB (2 dB when a stream is coded by the "
+                                                "hybrid layer, which is why those runs are outside the domain); threshold 6 dB"))
 
 
 def replay(ctx):
@@ -613,6 +635,6 @@ META = dict(
                 "stream and that projection round-trips every channel."),
     level_note=("Trusted: TLC, the Json module, the harness's digests and tone measurements, my reading of RFC 7845 5.1.1 / RFC 8486 3 (no RFC text "
                 "offline). The stream layouts of families 1 and 2 are the conventional ones, not prescribed by the RFCs. Signals, sample rates, frame "
-                "sizes and bitrates are sampled; tone clauses are asserted only at >= 48 kb/s per channel. Matrix identity is a table obligation with "
+                "sizes and bitrates are sampled; tone clauses are asserted only at >= 64 (projection: 96) kb/s per channel. Matrix identity is a table obligation with "
                 "tolerance 0.2 %."),
 )
